@@ -408,6 +408,19 @@ func Scenarios() []Scenario {
 			Body:  func(st *State, tid int) Obs { return decodeBody(st, tid, false) },
 			Check: allOK})
 	}
+	// S6c: two threads share one new zone offset, the third uses another (a one-entry "last zone" shortcut would be confused)
+	out = append(out, Scenario{Name: "S6c time decode x3, zone offsets X,Y,Y", Threads: 3,
+		Setup: func(env *Env) *State {
+			x, y := freshOffset(), freshOffset()
+			return recState(env, 3, func(i int) int {
+				if i == 0 {
+					return x
+				}
+				return y
+			})
+		},
+		Body:  func(st *State, tid int) Obs { return decodeBody(st, tid, false) },
+		Check: allOK})
 	// S7: mixed
 	out = append(out, Scenario{Name: "S7 mixed: Register || shared decode with new zone || build+decode", Threads: 3,
 		Setup: func(env *Env) *State {
